@@ -34,12 +34,15 @@ theorem c02_source_facts :
     -- Model/MediaCache.lean mirrors statement by statement (hash of the printed body: any edit shows)
     IpcHub.Gen.hashH264PayloadType = 15336468611961896817 ∧ IpcHub.Gen.hashH264NalType = 10879418973220888540 ∧
     IpcHub.Gen.hashHevcPayloadType = 10988566405585208546 ∧ IpcHub.Gen.hashHevcNalType = 17511132945312526616 ∧
+    IpcHub.Gen.hashH264KeyFragment = 908050043377899341 ∧ IpcHub.Gen.hashHevcKeyFragment = 2275853270803203746 ∧
     -- a key frame of several slice packets: the key run (same RTP timestamp as the previous key slice) is
     -- tested before the GOP is touched, kept per cache, and cleared by Reset
     IpcHub.Gen.condsH264CachePack = ["rtppack.Channel != rtp.ChannelVideo", "sps", "pps",
-      "islice && cache.keyRun && cache.keyTs == rtppack.Timestamp", "cache.cacheGop", "islice", "cache.gop.Len() > 0"] ∧
+      "islice && cache.keyRun && cache.keyTs == rtppack.Timestamp",
+      "!(cache.keyRun && cache.keyTs == rtppack.Timestamp && cache.keyFragment(payload))", "cache.cacheGop", "islice", "cache.gop.Len() > 0"] ∧
     IpcHub.Gen.condsHevcCachePack = ["rtppack.Channel != rtp.ChannelVideo", "vps", "sps", "pps",
-      "islice && cache.keyRun && cache.keyTs == rtppack.Timestamp", "cache.cacheGop", "islice", "cache.gop.Len() > 0"] ∧
+      "islice && cache.keyRun && cache.keyTs == rtppack.Timestamp",
+      "!(cache.keyRun && cache.keyTs == rtppack.Timestamp && cache.keyFragment(payload))", "cache.cacheGop", "islice", "cache.gop.Len() > 0"] ∧
     subseq ["set cache.pps", "return", "set cache.keyRun", "set cache.keyTs", "cache.gop.Reset"] IpcHub.Gen.progH264CachePack = true ∧
     subseq ["set cache.pps", "return", "set cache.keyRun", "set cache.keyTs", "cache.gop.Reset"] IpcHub.Gen.progHevcCachePack = true ∧
     countOf "set cache.keyRun" IpcHub.Gen.progH264CachePack = 1 ∧ countOf "set cache.keyRun" IpcHub.Gen.progHevcCachePack = 1 ∧
@@ -76,31 +79,32 @@ theorem c02_cache_state (hevc gop : Bool) (ps : List Pkt) :
   have h := cacheSpec_packAll genConsts hevc gop ps
   exact ⟨h.vps, h.sps, h.pps, h.gopS⟩
 
-/-- Which packets start a key frame, stated without the scan: the packet published after the
-    history `ps` is acted on as a key-frame START iff it is a key-frame slice packet and the last
-    slice packet before it is not a key-frame slice packet with the same RTP timestamp; a
-    key-frame slice packet that does continue such a run is acted on as an ordinary packet of the
-    GOP; every other packet is acted on as what it is. -/
+/-- Which packets start a key frame.  The history leaves a key run (`runAfter`): it is opened by a
+    key-frame slice packet (with that packet's RTP timestamp), kept by further key-frame slice
+    packets and by later FU fragments of key-frame slices carrying the same timestamp, closed by
+    any other slice packet, and left alone by packets that are not slices (`nextRun`, unfolded in
+    the second part).  The packet published after the history `ps` is acted on as a key-frame START
+    iff it is a key-frame slice packet and the run is not open with its timestamp; a key-frame
+    slice packet that continues the run is acted on as an ordinary packet of the GOP; every other
+    packet is acted on as what it is.  And an open run always carries the timestamp of a key-frame
+    slice packet of the history. -/
 theorem c02_key_frame_start (hevc : Bool) (ps : List Pkt) (p : Pkt) :
-    let continues : Bool := match (ps.filter (isSlice genConsts hevc)).getLast? with
-      | some q => decide (pktKind genConsts hevc q = .key) && decide (q.ts = p.ts)
-      | none => false
-    effKind genConsts hevc (runAfter genConsts hevc none ps) p =
-      (if pktKind genConsts hevc p = .key then (if continues then .other else .key)
-       else pktKind genConsts hevc p) := by
-  intro continues
-  rw [runAfter_spec]
-  show effKind genConsts hevc _ p = _
-  unfold effKind
-  cases hk : pktKind genConsts hevc p <;> simp only [reduceCtorEq, if_false, if_true]
-  -- only the key case is left with something to show
-  show (if _ = some p.ts then PK.other else PK.key) = if continues then PK.other else PK.key
-  cases hl : (ps.filter (isSlice genConsts hevc)).getLast? with
-  | none => simp [continues, hl]
-  | some q =>
-    by_cases hq : pktKind genConsts hevc q = .key
-    · by_cases ht : q.ts = p.ts <;> simp [continues, hl, hq, ht]
-    · simp [continues, hl, hq]
+    (effKind genConsts hevc (runAfter genConsts hevc none ps) p =
+      (if pktKind genConsts hevc p = .key then
+         (if runAfter genConsts hevc none ps = some p.ts then .other else .key)
+       else pktKind genConsts hevc p)) ∧
+    (runAfter genConsts hevc none (ps ++ [p]) =
+      (match pktKind genConsts hevc p with
+       | .key => some p.ts
+       | .other => if runAfter genConsts hevc none ps == some p.ts && isKeyFragment genConsts hevc p
+                   then runAfter genConsts hevc none ps else none
+       | _ => runAfter genConsts hevc none ps)) ∧
+    (∀ t, runAfter genConsts hevc none ps = some t →
+      ∃ q ∈ ps, pktKind genConsts hevc q = .key ∧ q.ts = t) := by
+  refine ⟨?_, ?_, fun t h => runAfter_from_key _ _ _ _ h⟩
+  · unfold effKind
+    cases hk : pktKind genConsts hevc p <;> simp
+  · rw [runAfter_snoc]; rfl
 
 /-- A key frame of several slice packets is kept whole (H.264, single-NAL IDR slices with one
     timestamp): the GOP replayed to a joiner starts with the FIRST slice. -/
@@ -111,6 +115,25 @@ theorem c02_multi_slice_key_frame :
     let s2 : Pkt := { uid := 4, ch := 0, payload := [0x65, 0x08, 2, 3], ts := 9000 }
     let q : Pkt := { uid := 5, ch := 0, payload := [0x61, 0x9a, 2, 3], ts := 12000 }
     (packAll genConsts { hevc := false, cacheGop := true } [sps, pps, s1, s2, q]).pushTo = [sps, pps, s1, s2, q] := by
+  decide
+
+/-- The usual case of a large key frame: each slice is FRAGMENTED (FU-A), all packets carry one
+    timestamp.  The later fragments of slice 1 keep the key run open, so the start fragment of
+    slice 2 continues the key frame and the joiner's GOP starts with the first fragment of slice 1. -/
+theorem c02_multi_slice_key_frame_fragmented :
+    let sps : Pkt := { uid := 1, ch := 0, payload := [0x67, 1, 2, 3], ts := 9000 }
+    let pps : Pkt := { uid := 2, ch := 0, payload := [0x68, 1, 2, 3], ts := 9000 }
+    let a1 : Pkt := { uid := 3, ch := 0, payload := [0x7c, 0x85, 0x88, 1], ts := 9000 }   -- slice 1, FU start
+    let a2 : Pkt := { uid := 4, ch := 0, payload := [0x7c, 0x05, 2, 3], ts := 9000 }      -- slice 1, middle
+    let a3 : Pkt := { uid := 5, ch := 0, payload := [0x7c, 0x45, 4, 5], ts := 9000 }      -- slice 1, end
+    let b1 : Pkt := { uid := 6, ch := 0, payload := [0x7c, 0x85, 0x08, 1], ts := 9000 }   -- slice 2, FU start
+    let b2 : Pkt := { uid := 7, ch := 0, payload := [0x7c, 0x45, 6, 7], ts := 9000 }      -- slice 2, end
+    let q : Pkt := { uid := 8, ch := 0, payload := [0x61, 0x9a, 2, 3], ts := 12000 }
+    (packAll genConsts { hevc := false, cacheGop := true } [sps, pps, a1, a2, a3, b1, b2, q]).pushTo
+      = [sps, pps, a1, a2, a3, b1, b2, q] ∧
+    -- a non-key packet with another timestamp ends the run: the next key slice starts a new key frame
+    (packAll genConsts { hevc := false, cacheGop := true }
+      [sps, pps, a1, a2, a3, q, { b1 with ts := 15000 }]).pushTo = [sps, pps, { b1 with ts := 15000 }] := by
   decide
 
 /-- The behaviour before the repair (every key-frame slice packet restarted the GOP: the model
